@@ -10,7 +10,7 @@ from __future__ import annotations
 
 import itertools
 
-from .. import e1, impl
+from .. import envs, e1, impl
 from ..chartgen import COMBOS, lanes_vector, mk, note_lines
 
 ID = "C02"
@@ -44,6 +44,7 @@ SUB12 = tuple(COMBOS[m] for m in (0, 1, 2, 16, 3, 24, 5, 7, 28, 15, 30, 31))  # 
 
 
 def setup():
+    envs.enable(64)  # E1-M: every 64th case again under every environment of mc/envs.py
     global probe
     impl.load()
     probe = e1.compile_probe(PROBE_SRC)
